@@ -137,16 +137,30 @@ Init ==
   /\ fl = [k |-> "none", a |-> Undef, b |-> Undef]
   /\ acc = [r \in DOMAIN A!Contexts[ci].regions |-> <<-1, 0, -1, 0>>]
 
+\* trace-following mode (conformance with the CPU): when the context carries the PC trace that
+\* `drv asmtrace` recorded from the real routine for the same lengths (as instruction indices),
+\* every step of the machine must be the next recorded instruction, the recorded trace must end
+\* exactly at the RET, and a data-dependent branch takes the recorded direction.
+Tr == Ctx.trace
+Following == Len(Tr) > 0
+OnTrace == ~Following \/ (steps + 1 <= Len(Tr) /\ Tr[steps + 1] = pc)
+
 Step ==
   /\ pc >= 1 /\ pc <= Len(A!Prog)
   /\ LET ins == A!Prog[pc]
          s == S0
          ln == ins.line
-     IN IF steps >= A!MaxSteps
+     IN IF ~OnTrace
+        THEN Commit(Err(s, ln, "C09 the instruction sequence of the real CPU diverges from the abstract machine at step "
+                               \o ToString(steps + 1)), 0) /\ UNCHANGED nsb
+        ELSE IF steps >= A!MaxSteps
         THEN Commit(Err(s, ln, "no return within the step bound"), 0) /\ UNCHANGED nsb
         ELSE
         CASE ins.cl = "nop" -> Commit(s, pc + 1) /\ UNCHANGED nsb
-          [] ins.cl = "ret" -> Commit(s, 0) /\ UNCHANGED nsb
+          [] ins.cl = "ret" ->
+               Commit(IF Following /\ steps + 1 # Len(Tr)
+                      THEN Err(s, ln, "C09 the real CPU executed more instructions than the abstract machine") ELSE s, 0)
+               /\ UNCHANGED nsb
           [] ins.cl = "jmp" -> Commit(s, ins.t) /\ UNCHANGED nsb
           [] ins.cl = "cmp" ->
                LET ra == Read(s, ins.a, ins.w, ln)
@@ -164,7 +178,9 @@ Step ==
                   THEN \* data-dependent decision: both outcomes are explored; only Ctx.secbr of them are permitted
                        /\ nsb' = nsb + 1
                        /\ LET s1 == IF nsb + 1 > Ctx.secbr THEN Err(s, ln, "C09 secret-dependent branch") ELSE s
-                          IN \/ Commit(s1, ins.t) \/ Commit(s1, pc + 1)
+                          IN IF Following /\ steps + 2 <= Len(Tr)
+                             THEN Commit(s1, IF Tr[steps + 2] = ins.t THEN ins.t ELSE pc + 1)
+                             ELSE \/ Commit(s1, ins.t) \/ Commit(s1, pc + 1)
                   ELSE Commit(Err(s, ln, "unsupported flags for a conditional branch (" \o s.fl.k \o "," \o a.t \o "," \o b.t \o ")"), 0)
                        /\ UNCHANGED nsb
           [] ins.cl = "lea" ->
